@@ -90,3 +90,17 @@ FAMILIES["map"] = {
         ]},
     ],
 }
+
+FAMILIES["shape"] = {
+    "anchor": "src/algorithm/pervade.rs pervade_dim, derive_new_shape",
+    "bound": "ranks <= 3 (concrete rank pairs), dimensions symbolic < 2^16",
+    "header": "use crate::shim::*;\n",
+    "rewrites": (PUBCRATE,),
+    "dropped": "R3 error text (format! shim macro returns an empty String)",
+    "groups": [
+        {"items": [
+            {"kind": "fn", "file": "src/algorithm/pervade.rs", "fn": "pervade_dim"},
+            {"kind": "fn_first", "file": "src/algorithm/pervade.rs", "fn": "derive_new_shape"},
+        ]},
+    ],
+}
